@@ -12,7 +12,7 @@ package loader
 //@   call[varint.ToUvarint#0] assert section_length [C15]: arg0 == wrap_u64(wrap_u64(w.len) + len(w.cid))
 //@   call[Writer.Write#0] assert length_prefix_first [C15]: ref(arg1) == ref(vbytes) && ref(arg0) == ref(w.wo.w)
 //@   call[Writer.Write#1] assert then_cid [C15]: len(arg1) == len(w.cid) && ref(arg0) == ref(w.wo.w)
-//@   call[mapupdate#0] assert record [C15]: value.Offset == old(w.wo).size && key == value.Cid
+//@   call[mapupdate#0] assert record [C15]: value.Offset == old(old(w.wo).size) && key == value.Cid
 //@   check size_accounts_for_section [C15]: old(w.wo) != nil && w.wo == nil ==> old(w.wo).size == wrap_u64(old(old(w.wo).size) + wrap_u64(wrap_u64(w.len) + wrap_u64(len(vbytes) + len(w.cid))))
 //@   check written_once [C15]: old(w.wo) == nil ==> w.wo == nil
 
